@@ -11,8 +11,12 @@ ALLOWED_AXIOMS = {
 FORBIDDEN = r"\b(Admitted|admit|Axiom|Parameter|Conjecture|Hypothesis|Variable)\b|Unset Guard|bypass_check|Admit Obligations|-type-in-type"
 
 def regen_makefile():
-    mk = os.path.join(COQ, "Makefile")
-    cp = os.path.join(COQ, "_CoqProject")
+    """_CoqProject lists every .v under coq/ (coqdep orders them); Makefile regenerated when the list changes."""
+    files = sorted(os.path.relpath(f, COQ) for f in glob.glob(os.path.join(COQ, "**", "*.v"), recursive=True))
+    want = "-Q . Raptor\n" + "\n".join(files) + "\n"
+    cp = os.path.join(COQ, "_CoqProject"); mk = os.path.join(COQ, "Makefile")
+    if (not os.path.exists(cp)) or open(cp).read() != want:
+        open(cp, "w").write(want)
     if (not os.path.exists(mk)) or os.path.getmtime(mk) < os.path.getmtime(cp):
         subprocess.run(["coq_makefile", "-f", "_CoqProject", "-o", "Makefile"], cwd=COQ, check=True,
                        capture_output=True)
@@ -85,22 +89,22 @@ def check_props(pid, extra_targets=()):
             res["failed"].append(nm)
     return res
 
-def build_extracted():
-    """make Extract/Extract.vo (writes coq/model.ml) and compile the OCaml driver. Returns path or raises."""
-    rc, log, wall = make(["Extract/Extract.vo"])
-    ml = os.path.join(COQ, "model.ml")
+def build_extracted(family="sparse", srcs=("conv.ml", "mat.ml", "drv_sparse.ml")):
+    """make Extract/Extract_<family>.vo (writes coq/model_<family>.ml) and compile the family's OCaml driver
+       (ocaml/_build/<family>/driver). Returns its path or raises."""
+    rc, log, wall = make(["Extract/Extract_%s.vo" % family])
+    ml = os.path.join(COQ, "model_%s.ml" % family)
     if rc != 0 or not os.path.exists(ml):
         raise RuntimeError("extraction failed:\n" + log[-3000:])
-    bd = os.path.join(VERIF, "ocaml", "_build")
+    bd = os.path.join(VERIF, "ocaml", "_build", family)
     os.makedirs(bd, exist_ok=True)
-    srcs = ["conv.ml", "mat.ml"] + sorted(f for f in os.listdir(os.path.join(VERIF, "ocaml"))
-                                           if f.startswith("ops_") and f.endswith(".ml")) + ["driver.ml"]
+    srcs = list(srcs)
     stamp = os.path.join(bd, "driver")
     newest = max([os.path.getmtime(ml)] + [os.path.getmtime(os.path.join(VERIF, "ocaml", s)) for s in srcs])
     if os.path.exists(stamp) and os.path.getmtime(stamp) >= newest:
         return stamp
-    for f in ("model.ml", "model.mli"):
-        subprocess.run(["cp", os.path.join(COQ, f), bd], check=True)
+    subprocess.run(["cp", ml, os.path.join(bd, "model.ml")], check=True)
+    subprocess.run(["cp", ml + "i", os.path.join(bd, "model.mli")], check=True)
     for s in srcs:
         subprocess.run(["cp", os.path.join(VERIF, "ocaml", s), bd], check=True)
     p = subprocess.run(["ocamlfind", "ocamlopt", "-w", "-a", "-O2", "model.mli", "model.ml"] + srcs + ["-o", "driver"],
